@@ -7,7 +7,7 @@ From Coq Require Import String.
 From Coq Require Import List Ascii ZArith Bool Lia.
 From CGV Require Import Base.PyBase Base.PyVal Base.NxGraph Dialect.DialectImpl Frag.NDict Frag.StripImpl Frag.FragText Frag.FragProofs
      Frag.SmilesParse Frag.SmilesSpec Frag.Template Frag.TemplateFinal Frag.TemplateGraph Frag.TemplateCompose
-     Resolve.GraphOps Resolve.PipelineFull Hydro.HydroDefs
+     Resolve.GraphOps Resolve.CopyProofs Resolve.PipelineFull Hydro.HydroDefs
      Compose.PyEq Compose.CutModel Compose.CutSpecDefs Compose.CutSpecCheck Compose.CutHydrogens Compose.OrderIndep Compose.ComposeFlat
      Stereo.EzImpl Stereo.EzDefs Stereo.EzProofs Stereo.EzStrings Stereo.EzCut Stereo.EzStringCut.
 From CGV Require Hydro.Hydrogens.
@@ -240,3 +240,78 @@ Theorem chain_family_order_invariant_bounded n m o1 o2 : (n <= 12)%nat -> (m <= 
         (ez_tuple (map_get m2 (phi C2 lx)) (map_get m2 (phi C2 ax)) (map_get m2 (phi C2 ay)) (map_get m2 (phi C2 ly)) c2) ->
       c1 = c2.
 Proof. intros Hn Hm. exact (family_member n m o1 o2 (family_ok_bounded n m Hn Hm)). Qed.
+
+(** ---------------------------------------------------------------- a second cut of the same molecule: cut ELSEWHERE
+    {[#A][#B]}.{#A=C(Cl)(/CC)=C(Br)/CC[$],#B=[$]C}  against  the cut at the double bond (C12): non-vacuity of
+    cut_invariant / stored_class_sides *)
+Definition ds1 : desc := {| d_kind := "$"%char; d_label := []; d_sym := None |}.
+Definition toksP : list tok :=
+  [TAtom (S "C"); TOpen; TAtom (S "Cl"); TClose; TOpen; TSlash true; TAtom (S "C"); TAtom (S "C"); TClose; TBond BDouble;
+   TAtom (S "C"); TOpen; TAtom (S "Br"); TClose; TSlash true; TAtom (S "C"); TAtom (S "C")].
+Definition dcP : decor := {| d_lead := []; d_after := repeat [] 16 ++ [[ds1]] |}.
+Definition toksQ : list tok := [TAtom (S "C")].
+Definition dcQ : decor := {| d_lead := [ds1]; d_after := [[]] |}.
+Definition tP := render (decorate toksP dcP).
+Definition tQ := render (decorate toksQ dcQ).
+Definition ezP : ndict ascii := [(2%nat, "/"%char); (0%nat, "/"%char); (6%nat, "/"%char); (4%nat, "/"%char)].
+Definition xsP : list Z := [0; 2; 4; 6; 1; 3; 5; 7].
+Definition C12p : cut :=
+  {| c_atoms := [(0, hatom "C" 0); (2, hatom "Cl" 0); (4, hatom "C" 2); (6, hatom "C" 3); (1, hatom "C" 0); (3, hatom "Br" 0);
+                 (5, hatom "C" 2); (7, hatom "C" 3); (9, hatom "C" 4)];
+     c_bonds := c_bonds C12; c_parts := [(nA, xsP); (nB, [9])]; c_dord := [] |}.
+Definition outP : res full_out := Eval vm_compute in resolve_string fo0 (sAB tP tQ).
+
+Lemma readingP : exists T0, frag_reading fo0 C12p nA xsP toksP dcP ezP T0.
+Proof. apply readingb_sound. vm_compute. reflexivity. Qed.
+Lemma readingQ : exists T0, frag_reading fo0 C12p nB [9] toksQ dcQ [] T0.
+Proof. apply readingb_sound. vm_compute. reflexivity. Qed.
+
+Example cut_invariant_nonvacuous :
+  to_string (sAB tP tQ) = "{[#A][#B]}.{#A=C(Cl)(/CC)=C(Br)/CC[$],#B=[$]C}"%string /\
+  exists fd1 fd2 o1 o2,
+    let tok1 := tok2 (keysX 0 1) (keysX 1 2) ez02 ez02 in let tokp := tok2 xsP [9] ezP [] in
+    wf_cut C12 /\ templates_ok C12 fd1 /\ wf_dict fd1 /\ is_base C12 (next_meta baseAB) /\ heavy_payload C12 /\ numeric_orders C12 /\
+    wf_cut C12p /\ templates_ok C12p fd2 /\ wf_dict fd2 /\ is_base C12p (next_meta baseAB) /\ heavy_payload C12p /\ numeric_orders C12p /\
+    (forall name xs T i x n, In (name, xs) (c_parts C12) -> fd_get name fd1 = Some T ->
+       nth_error xs i = Some x -> gfind (Z.of_nat i) T = Some n -> aget ezk (na n) = tok1 x) /\
+    (forall name xs T i x n, In (name, xs) (c_parts C12p) -> fd_get name fd2 = Some T ->
+       nth_error xs i = Some x -> gfind (Z.of_nat i) T = Some n -> aget ezk (na n) = tokp x) /\
+    resolve_string fo0 (sAB tA1 tB2) = Ok o1 /\ resolve_string fo0 (sAB tP tQ) = Ok o2 /\
+    resolve_step_full true true fd1 baseAB (Some (fo_m3 o1)) = Ok o1 /\ resolve_step_full true true fd2 baseAB (Some (fo_m3 o2)) = Ok o2 /\
+    let m1 := mapping_of_out o1 in let m2 := mapping_of_out o2 in
+    sort_mapping (fo_m4 o1) = Ok m1 /\ sort_mapping (fo_m4 o2) = Ok m2 /\
+    tok1 4 = Some (tok_of true (wb C12 4 0)) /\ tok1 5 = Some (tok_of true (wb C12 5 1)) /\
+    tokp 4 = Some (tok_of true (wb C12p 4 0)) /\ tokp 5 = Some (tok_of true (wb C12p 5 1)) /\
+    late_after C12 4 0 1 5 = true /\ late_after C12p 4 0 1 5 = true /\
+    is_new (fo_m5 o1) (fo_mol o1) (map_get m1 (phi C12 4))
+      (ez_tuple (map_get m1 (phi C12 4)) (map_get m1 (phi C12 0)) (map_get m1 (phi C12 1)) (map_get m1 (phi C12 5)) v_cis) /\
+    is_new (fo_m5 o2) (fo_mol o2) (map_get m2 (phi C12p 4))
+      (ez_tuple (map_get m2 (phi C12p 4)) (map_get m2 (phi C12p 0)) (map_get m2 (phi C12p 1)) (map_get m2 (phi C12p 5)) v_cis).
+Proof.
+  split; [vm_compute; reflexivity|].
+  destruct readingP as [TP RP]. destruct readingQ as [TQ RQ].
+  assert (W2 : wf_cut C12p) by (apply wf_cutb_sound; vm_compute; reflexivity).
+  assert (P1 : parts_AB C12 (keysX 0 1) (keysX 1 2)) by (left; reflexivity).
+  assert (P2 : parts_AB C12p xsP [9]) by (left; reflexivity).
+  assert (NbA : S "[#A][#B]" <> []) by discriminate.
+  assert (HbA : ~ In "}"%char (S "[#A][#B]")) by (vm_compute; intuition discriminate).
+  assert (Sep2 : ~ In ","%char tP /\ ~ In ","%char tQ /\ ~ In "}"%char tP /\ ~ In "}"%char tQ) by (repeat split; vm_compute; intuition discriminate).
+  assert (R1 : resolve_string fo0 (sAB tA1 tB2) = Ok (get_out outAB)) by (vm_compute; reflexivity).
+  assert (R2 : resolve_string fo0 (sAB tP tQ) = Ok (get_out outP)) by (vm_compute; reflexivity).
+  exists [(nA, tmpl_graph TA1); (nB, tmpl_graph TB2)], [(nA, tmpl_graph TP); (nB, tmpl_graph TQ)], (get_out outAB), (get_out outP).
+  cbv zeta.
+  split; [exact C12_wf|]. split; [exact (two_templates_ok _ _ _ _ _ _ _ _ _ _ _ _ readingA readingB P1)|].
+  split; [exact (two_wf_dict _ _ _ _ _ _ _ _ _ _ _ _ readingA readingB)|]. split; [exact C12_baseAB|]. split; [exact C12_heavy|]. split; [exact C12_numeric|].
+  split; [exact W2|]. split; [exact (two_templates_ok _ _ _ _ _ _ _ _ _ _ _ _ RP RQ P2)|].
+  split; [exact (two_wf_dict _ _ _ _ _ _ _ _ _ _ _ _ RP RQ)|]. split; [apply is_baseb_sound; vm_compute; reflexivity|].
+  split; [apply heavy_payloadb_sound; vm_compute; reflexivity|]. split; [apply numeric_ordersb_sound; vm_compute; reflexivity|].
+  split; [exact (two_tok _ _ _ _ _ _ _ _ _ _ _ _ readingA readingB P1 C12_wf)|].
+  split; [exact (two_tok _ _ _ _ _ _ _ _ _ _ _ _ RP RQ P2 W2)|].
+  split; [exact R1|]. split; [exact R2|].
+  split; [exact (string_step _ _ _ _ _ _ _ _ _ _ _ _ readingA readingB (S "[#A][#B]") baseAB NbA HbA (read_baseAB fo0) C12_sep _ R1)|].
+  split; [exact (string_step _ _ _ _ _ _ _ _ _ _ _ _ RP RQ (S "[#A][#B]") baseAB NbA HbA (read_baseAB fo0) Sep2 _ R2)|].
+  split; [vm_compute; reflexivity|]. split; [vm_compute; reflexivity|].
+  split; [vm_compute; reflexivity|]. split; [vm_compute; reflexivity|]. split; [vm_compute; reflexivity|]. split; [vm_compute; reflexivity|].
+  split; [vm_compute; reflexivity|]. split; [vm_compute; reflexivity|].
+  split; (split; [apply existsb_In; vm_compute; reflexivity|vm_compute; tauto]).
+Qed.
